@@ -373,8 +373,65 @@ fn classify(a: &Outcome, b: &Outcome) -> &'static str {
     }
 }
 
+
+/// Programs of hundreds and thousands of lines: far jumps forward and backward, a jump past the
+/// end, errors on the first and on the last line (the line number handed to on_error).
+fn scale(w: &mut Worker) {
+    let sizes: Vec<usize> = w.tier.pick(vec![300, 3000], vec![300, 3000, 100_000]);
+    let rig = Rig::new(OnError::Continue);
+    let k = |label: Option<&'static str>, output: bool| Line { label, output, cmd: Cmd::K };
+    let nope = Line { label: None, output: false, cmd: Cmd::Nope };
+    let blank = Line { label: None, output: false, cmd: Cmd::None };
+    for &n in &sizes {
+        let last = (n - 1) as u32;
+        let mut cases: Vec<(&str, Vec<Line>, Vec<(Key, u16)>)> = vec![];
+        // forward jump by label over n-2 lines that must not run
+        let mut p = vec![k(None, false)];
+        p.extend(std::iter::repeat(nope.clone()).take(n - 2));
+        p.push(k(Some(":b"), true));
+        cases.push(("far-forward-label", p.clone(), vec![((0, 0), 3)]));
+        // jump past the end by line number
+        cases.push(("jump-past-end", p.clone(), vec![((0, 0), 6)]));
+        // backward jump from the last line to the first, once
+        let mut p = vec![k(Some(":a"), false)];
+        p.extend(std::iter::repeat(blank.clone()).take(n - 2));
+        p.push(k(None, true));
+        cases.push(("far-backward-label", p.clone(), vec![((last, 0), 2)]));
+        cases.push(("far-backward-line", p.clone(), vec![((last, 0), 5)]));
+        // errors on the first and on the last line
+        cases.push(("errors-first-and-last", p.clone(), vec![((0, 0), 8), ((last, 0), 9)]));
+        for (name, prog, decided) in cases {
+            if !w.take() {
+                continue;
+            }
+            let text = prog.iter().map(render_line).collect::<Vec<_>>().join("\n");
+            let cj = json!({"program": text, "on_error": "Continue", "as_file": false, "scale": name, "decided": decided.iter().map(|(k, c)| json!([k.0, k.1, c])).collect::<Vec<_>>()});
+            w.begin(|| cj.clone());
+            w.add_transitions(1);
+            let res = guarded(|| rig.run(&text, prog.len(), None, &decided));
+            match res {
+                Err(pn) => w.fail("scale:panic", &format!("{} with {} lines: panic {}", name, n, pn), cj),
+                Ok((mut got, _)) => {
+                    let exp = reference(&prog, OnError::Continue, &Tape::with(&decided), None);
+                    mask_open(&mut got, &exp);
+                    if got == exp {
+                        w.pass(true, hash64(&("scale", name)));
+                    } else {
+                        w.fail(
+                            &format!("scale:{}", classify(&got, &exp)),
+                            &format!("{} with {} lines: implementation calls {:?} end {:?}, abstract machine calls {:?} end {:?}", name, n, got.calls, got.end, exp.calls, exp.end),
+                            cj,
+                        );
+                    }
+                }
+            }
+        }
+    }
+}
+
 pub fn worker(w: &mut Worker) {
     let tier = w.tier;
+    scale(w);
     let forms = line_forms();
     let nmax = tier.pick(3usize, 4usize);
     let (devs, horizon) = tier.pick((2usize, 8usize), (3usize, 8usize));
@@ -547,7 +604,7 @@ pub fn crash_sig(_case: &Value, kind: &str) -> String {
     kind.to_string()
 }
 
-pub const RULE: &str = "programs: every sequence of 1..n lines over 12 line forms (label none/:a/:b x {no command, `k p ${x}`, `x = k p ${x}`, unknown command `nope p`}), duplicates of labels included; configurations: on_error command absent / continuing / exiting / crashing, script as text and (small programs) as file; answers: at every invocation of the scripted command k one of 17 results (Continue with/without value, Continue after removing the registered on_error command / registering one where there is none, GoTo label :a/:b/undefined, GoTo line 0/n/n+5, Error with plain message / message containing ${x}, Crash, Exit none/0/3/-1/abc), explored with a bounded number of deviations from the default answer within a horizon of choice points. Every execution of the real runner is compared with the abstract machine run on the same answers: sequence of invocations with bound arguments and the `line` each command sees, on_error arguments (message, 1-based line, source), final variables, success or failure with source line and file. evaluations = programs x configurations; transitions = executions; states = distinct (calls, outcome, deviations) classes";
+pub const RULE: &str = "programs: every sequence of 1..n lines over 12 line forms (label none/:a/:b x {no command, `k p ${x}`, `x = k p ${x}`, unknown command `nope p`}), duplicates of labels included; configurations: on_error command absent / continuing / exiting / crashing, script as text and (small programs) as file; answers: at every invocation of the scripted command k one of 17 results (Continue with/without value, Continue after removing the registered on_error command / registering one where there is none, GoTo label :a/:b/undefined, GoTo line 0/n/n+5, Error with plain message / message containing ${x}, Crash, Exit none/0/3/-1/abc), explored with a bounded number of deviations from the default answer within a horizon of choice points. Every execution of the real runner is compared with the abstract machine run on the same answers: sequence of invocations with bound arguments and the `line` each command sees, on_error arguments (message, 1-based line, source), final variables, success or failure with source line and file. Scale cases: programs of 300/3000 (thorough 100000) lines with a far forward jump by label over unknown commands, a jump past the end, far backward jumps by label and by line, errors on the first and last line. evaluations = programs x configurations; transitions = executions; states = distinct (calls, outcome, deviations) classes";
 pub const ASSUMPTIONS: &[&str] = &["lines with an output variable but no command are not generated (the statement speaks of command results)", "error messages are compared only through the on_error arguments; failures are compared by line and source file"];
 pub const EXHAUSTIVE: bool = true;
 pub const WALL_CAP_S: (u64, u64) = (55, 1500);
